@@ -42,8 +42,11 @@ CHECKS = {
         text="InvokeIff/AtMostOncePerPeriod/InvokedAfterEvents are invariants with the invocation rule defined from the "
              "scenario only; Obs defines what must be observable. Replay compares everything a recording scheduler reads "
              "through the Interface with Obs, and repeats behaviours with a scheduler that mutates every object it is "
-             "handed.",
-        tech="TLA+ spec (AcnSim.tla) + TLC invariants + spec-to-code behaviour replay (recording and mutating schedulers)",
+             "handed. The invocation rule is additionally isolated in Control.tla (the control skeleton of run()), whose inductive "
+             "invariant Apalache discharges for every horizon, max_recompute and event pattern, and TLC checks that AcnSim.tla "
+             "refines it (AcnSimControl.tla).",
+        tech="TLA+ spec (AcnSim.tla, Control.tla) + TLC invariants and refinement + Apalache inductive invariant (recorded) + "
+             "spec-to-code behaviour replay (recording and mutating schedulers)",
         ref="5/C05", note=ACN_NOTE),
     "C09": dict(
         text="CrashTransparent (re-invocation on the identical durable state after an interruption) and DumpLoad = "
